@@ -11,6 +11,11 @@ def specLine (db : DB) (line : String) : DB × String :=
     | .list [.atom "state"] => (db, "contents=" ++ showList showPoint db)
     | .list [.atom "reopen"] => (db, "ok unit")
     | .list (.atom "idx" :: _) => (db, "n/a")
+    | .list [.atom "eval", q, pt] =>
+      match parseQuery q, parsePoint pt with
+      | some q, some (some p) => (db, if sem q p then "ok true" else "ok false")
+      | _, _ => (db, "bad-op")
+    | .list [.atom "qeq", _, _] => (db, "n/a")
     | .list (.atom "c18" :: _) =>
       match parseC18 sx with
       | some (fn, x, l) => (db, "spec=" ++ specFind fn l x)
